@@ -445,8 +445,11 @@ def part_reject(chk):
             self.w.append(d)
     from zope.interface import directlyProvides
     from twisted.internet.interfaces import ITransport
-    for reply in (b"ok\n", b"ok\r\n", b"OK\n", b"o", b"ok", b"okay\n", b"\n", b"bad handshake\n", b"ok\nIN", b"ok\nIN\n\n", b"x" * 3, b"impatient\n"):
-        for chunked in (False, True):
+    FRAME = b"\x00\x00\x00\x03abc"
+    tokens_by_reply = {}
+    for reply in (b"ok\n", b"ok\r\n", b"OK\n", b"o", b"ok", b"okay\n", b"\n", b"bad handshake\n", b"ok\nIN", b"ok\nIN\n\n", b"x" * 3, b"impatient\n",
+                  b"ok\nIN\n\n" + FRAME, b"ok\nIN\n\n" + FRAME + FRAME[:5]):
+        for chunked in [False, True] + [("split", k) for k in range(1, len(reply))]:
             t = T()
             directlyProvides(t, ITransport)
             f = _Framer(t, b"OUT\n\n", b"IN\n\n")
@@ -455,13 +458,23 @@ def part_reject(chk):
             n += 1
             res = []
             try:
-                pieces = [reply] if not chunked else [reply[i:i + 1] for i in range(len(reply))]
+                if isinstance(chunked, tuple):
+                    pieces = [reply[:chunked[1]], reply[chunked[1]:]]
+                else:
+                    pieces = [reply] if not chunked else [reply[i:i + 1] for i in range(len(reply))]
                 for pc in pieces:
                     res.extend(list(f.add_and_parse(pc)))
                 outcome = "accepted" if b"OUT\n\n" in t.w else "waiting"
             except Disconnect:
                 outcome = "disconnect"
             keys.add((reply, outcome))
+            # what the framer hands to its caller must not depend on how TCP cut the stream
+            toks = (outcome, tuple(type(x).__name__ + (":" + bytes(x.frame).hex() if hasattr(x, "frame") else "") for x in res))
+            first = tokens_by_reply.setdefault(reply, (chunked, toks))
+            if first[1] != toks:
+                viol.append(dict(oracle="relay-reply", sig="chunking-dependent", case=repr(reply),
+                                 msg="relay reply + following bytes %r: delivered %s the framer yields %r, delivered %s it yields %r" % (
+                                     reply, first[0], first[1], chunked, toks)))
             good = reply.startswith(b"ok\n") and b"IN\n\n".startswith(reply[3:7])
             prefix = b"ok\n".startswith(reply)
             expect = "accepted" if good else ("waiting" if prefix else "disconnect")
